@@ -401,7 +401,7 @@ class Gen:
 
 class C11(tk.TableProp):
     id = "C11"
-    lean_modules = ["VivModel.Props.C11"]
+    lean_modules = ["VivModel.Props.C11", "VivModel.Props.C11Src"]
     technique = ("Lean 4 proof (frame rule of the positional write by induction over the update, shape, every rejection kind, "
                  "column-order and row-order irrelevance) + differential correspondence of op sequences on a real "
                  "PopulationManager under three PYTHONHASHSEED values")
